@@ -36,6 +36,8 @@ type FuncContract struct {
 	Requires   []*Clause
 	Ensures    []*Clause
 	EnsuresP   []*Clause // ensures on panic exits
+	Checks     []*Clause // internal postconditions (may mention locals; not exported to callers)
+	Functional bool
 	Modifies   []*Clause
 	HasMod     bool
 	Pure       bool
@@ -99,7 +101,7 @@ func newContracts() *Contracts {
 	return &Contracts{Funcs: map[string]*FuncContract{}, Specs: map[string]*SpecFunc{}, Decls: map[string][]string{}}
 }
 
-var keywordRe = regexp.MustCompile(`^(func|requires|ensures|ensures_on_panic|modifies|pure|trusted|strict|mathint|maypanic|nobody|loop|param|spec|axiom|lemma|monitor|allocbound|decl)\b`)
+var keywordRe = regexp.MustCompile(`^(func|requires|ensures_on_panic|ensures|check|functional|closeonce|modifies|pure|trusted|strict|mathint|maypanic|nobody|loop|param|spec|axiom|lemma|monitor|allocbound|decl)\b`)
 
 // preprocess rewrites `A ==> B` into implies(A, B) (lowest precedence within its paren group)
 // and `A <==> B` into iff(A, B).
@@ -289,6 +291,22 @@ func (cs *Contracts) parseContractFile(path string, content []byte, pkgName stri
 				if c := mk(part, it.line); c != nil {
 					cur.Modifies = append(cur.Modifies, c)
 				}
+			}
+		case "check":
+			if cur == nil {
+				fail(it.line, "check outside func")
+				continue
+			}
+			if c := mk(rest, it.line); c != nil {
+				cur.Checks = append(cur.Checks, c)
+			}
+		case "functional":
+			if cur != nil {
+				cur.Functional = true
+			}
+		case "closeonce":
+			if cur != nil {
+				cur.CloseOnce = true
 			}
 		case "pure":
 			if cur != nil {
